@@ -40,6 +40,16 @@ pub struct WorldSpec {
   pub no_rune_index: bool,
   /// run the ord server with --no-index-inscriptions (the prepared inscriptions are then invisible)
   pub no_inscription_index: bool,
+  /// the foreign outputs pay to the p2wpkh address of SWEEP_KEY and the server indexes
+  /// addresses (so that `ord wallet sweep` can find them)
+  pub sweepable_foreign: bool,
+}
+
+/// secret key behind the foreign outputs of a `sweepable_foreign` world
+pub const SWEEP_KEY: [u8; 32] = [7; 32];
+
+pub fn sweep_private_key(network: Network) -> bitcoin::PrivateKey {
+  bitcoin::PrivateKey::from_slice(&SWEEP_KEY, network).unwrap()
 }
 
 pub struct World {
@@ -91,8 +101,13 @@ impl World {
     let extra = if need > have { (need - have).div_ceil(coin) as usize } else { 0 };
     Self::mine(&core, (k + 2 + extra) as u64);
     let wallet_address = core.state().new_address(false);
-    let foreign_address =
-      Address::from_script(&ScriptBuf::new_p2wpkh(&bitcoin::WPubkeyHash::from_byte_array([0; 20])), network).unwrap();
+    let foreign_address = if spec.sweepable_foreign {
+      let secp = bitcoin::secp256k1::Secp256k1::new();
+      let pk = bitcoin::CompressedPublicKey::from_private_key(&secp, &sweep_private_key(network)).unwrap();
+      Address::p2wpkh(&pk, network)
+    } else {
+      Address::from_script(&ScriptBuf::new_p2wpkh(&bitcoin::WPubkeyHash::from_byte_array([0; 20])), network).unwrap()
+    };
 
     let runes: Vec<Rune> = spec.rune_names.iter().map(|o| Rune(RUNE_BASE + o)).collect();
     let mut rune_ids = Vec::new();
@@ -223,6 +238,7 @@ impl World {
         inputs: &[(k + 1, 0, 0, witness)],
         fee: total % spec.foreign as u64,
         outputs: spec.foreign,
+        recipient: if spec.sweepable_foreign { Some(foreign_address.clone()) } else { None },
         ..Default::default()
       });
       Self::mine(&core, 1);
@@ -254,7 +270,13 @@ impl World {
       dir.path().join("server").display(),
       dir.path().join("server").display(),
       if (k > 0 || spec.regtest) && !spec.no_rune_index { "--index-runes" } else { "" },
-      if spec.no_inscription_index { "--no-index-inscriptions --index-addresses" } else { "" },
+      if spec.no_inscription_index {
+        "--no-index-inscriptions --index-addresses"
+      } else if spec.sweepable_foreign {
+        "--index-addresses"
+      } else {
+        ""
+      },
     ));
     server.update().expect("index update");
 
@@ -328,6 +350,21 @@ impl World {
     v.extend(args.iter().map(|s| s.to_string()));
     // the wallet looks at ORD_* environment variables; none are set by the harness
     hook::run_cli(&v)
+  }
+
+  /// like `cli`, with `input` as the process's standard input while the command runs
+  pub fn cli_with_stdin(&self, args: &[&str], input: &str) -> Result<bool, String> {
+    use std::os::fd::AsRawFd;
+    let path = self.file("stdin.txt", input);
+    let f = std::fs::File::open(path).unwrap();
+    let saved = unsafe { libc::dup(0) };
+    unsafe { libc::dup2(f.as_raw_fd(), 0) };
+    let r = self.cli(args);
+    unsafe {
+      libc::dup2(saved, 0);
+      libc::close(saved);
+    }
+    r
   }
 
   pub fn file(&self, name: &str, content: &str) -> String {
